@@ -100,5 +100,11 @@ def engine_b(tier, seed, scr):
     out += [kernels.k_stepper(eng, k) for k in ("month", "season", "half")]
     return out
 
+def fallback_candidates(j):
+    """concrete inputs for the native confirmation of a solver-flagged obligation whose trace run delivered no values"""
+    if j.body.endswith("c11c_term"):
+        return [[y, i, n] for y in (2023, 2) for n in list(range(-30, 31)) for i in range(24)]
+    return []
+
 def describe(j, vals):
     return {"inputs_as_i64": [v if v < (1 << 63) else v - (1 << 64) for v in vals]}
